@@ -39,39 +39,46 @@ Proof.
   intros H Hne. unfold owner_is. rewrite H. apply N.eqb_neq. exact Hne.
 Qed.
 
-Lemma is_locked_true t : is_locked t = true <-> exists e, t_owner t = Some e.
+Lemma is_locked_true t : is_locked t = true <-> (exists e, t_owner t = Some e) /\ t_idok t = true.
 Proof.
-  unfold is_locked. destruct (t_owner t) as [o|]; split; intro H; try discriminate.
-  - exists o. reflexivity.
-  - reflexivity.
-  - destruct H as [e H]. discriminate.
+  unfold is_locked. destruct (t_owner t) as [o|]; split; intro H.
+  - split; [exists o; reflexivity|exact H].
+  - apply H.
+  - discriminate.
+  - destruct H as [[e H] _]. discriminate.
 Qed.
 
-Lemma is_locked_false t : is_locked t = false <-> t_owner t = None.
-Proof. unfold is_locked. destruct (t_owner t); split; congruence. Qed.
+Lemma is_locked_false t : is_locked t = false <-> t_owner t = None \/ t_idok t = false.
+Proof.
+  unfold is_locked. destruct (t_owner t) as [o|]; split; intro H; auto.
+  - destruct H as [H|H]; [discriminate|exact H].
+Qed.
+
+Lemma locked_intro t e : t_owner t = Some e -> t_idok t = true -> is_locked t = true.
+Proof. intros H1 H2. apply is_locked_true. split; [eauto|exact H2]. Qed.
 
 (* ---------------- release ---------------- *)
 Lemma release_ids e ids r : map t_id (fst (release e ids r)) = map t_id r.
 Proof.
   induction r as [|t r IH]; cbn [release]; [reflexivity|].
   destruct (release e ids r) as [r'' n] eqn:E. cbn [fst] in IH.
-  destruct (mem_tid (t_id t) ids); [destruct (t_owner t) as [o|]; [destruct (N.eqb o e)|]|];
+  destruct (mem_tid (t_id t) ids); [destruct (t_owner t) as [o|]; [destruct (N.eqb o e || negb (t_idok t))|]|];
     cbn [fst map set_owner t_id]; rewrite IH; reflexivity.
 Qed.
 
-(* a task that [e] does not own stays as it is *)
+(* a task that is locked by somebody else than [e], or has no parent, stays as it is *)
 Lemma release_keeps e ids r t :
-  In t r -> owner_is e t = false -> In t (fst (release e ids r)).
+  In t r -> owner_is e t = false -> (t_owner t = None \/ t_idok t = true) -> In t (fst (release e ids r)).
 Proof.
   induction r as [|a r IH]; cbn [release In]; [tauto|].
-  intros [->|Hin] Hown; destruct (release e ids r) as [r'' n] eqn:E; cbn [fst] in IH.
+  intros [->|Hin] Hown Hk; destruct (release e ids r) as [r'' n] eqn:E; cbn [fst] in IH.
   - destruct (mem_tid (t_id t) ids).
     + unfold owner_is in Hown. destruct (t_owner t) as [o|] eqn:Eo.
-      * rewrite Hown. cbn. left. reflexivity.
+      * destruct Hk as [Hk|Hk]; [discriminate|]. rewrite Hown, Hk. cbn. left. reflexivity.
       * cbn. left. reflexivity.
     + cbn. left. reflexivity.
-  - specialize (IH Hin Hown).
-    destruct (mem_tid (t_id a) ids); [destruct (t_owner a) as [o|]; [destruct (N.eqb o e)|]|];
+  - specialize (IH Hin Hown Hk).
+    destruct (mem_tid (t_id a) ids); [destruct (t_owner a) as [o|]; [destruct (N.eqb o e || negb (t_idok a))|]|];
       cbn [fst In]; right; exact IH.
 Qed.
 
@@ -82,26 +89,32 @@ Proof.
   intros [->|Hin] Hm; destruct (release e ids r) as [r'' n] eqn:E; cbn [fst] in IH.
   - rewrite Hm. cbn. left. reflexivity.
   - specialize (IH Hin Hm).
-    destruct (mem_tid (t_id a) ids); [destruct (t_owner a) as [o|]; [destruct (N.eqb o e)|]|];
+    destruct (mem_tid (t_id a) ids); [destruct (t_owner a) as [o|]; [destruct (N.eqb o e || negb (t_idok a))|]|];
       cbn [fst In]; right; exact IH.
 Qed.
 
-(* every task of the result is a task of the argument, possibly unlocked from [e] *)
+(* every task of the result is a task of the argument, possibly with its parent cleared: then it was
+   a listed task of [e], or a listed task that was not locked any more *)
 Lemma release_spec e ids r t' :
   In t' (fst (release e ids r)) ->
-  In t' r \/ exists t, In t r /\ t_owner t = Some e /\ mem_tid (t_id t) ids = true /\ t' = set_owner None t.
+  In t' r \/ exists t, In t r /\ (t_owner t = Some e \/ t_idok t = false) /\ mem_tid (t_id t) ids = true /\
+                       t' = set_owner None t.
 Proof.
   induction r as [|a r IH]; cbn [release]; [cbn; tauto|].
   destruct (release e ids r) as [r'' n] eqn:E; cbn [fst] in IH.
   assert (Hrec : In t' r'' -> In t' (a :: r) \/
-            exists t, In t (a :: r) /\ t_owner t = Some e /\ mem_tid (t_id t) ids = true /\ t' = set_owner None t).
+            exists t, In t (a :: r) /\ (t_owner t = Some e \/ t_idok t = false) /\ mem_tid (t_id t) ids = true /\
+                      t' = set_owner None t).
   { intro H. destruct (IH H) as [H1|[t [H1 H2]]]; [left; right; exact H1|].
     right. exists t. split; [right; exact H1|exact H2]. }
   destruct (mem_tid (t_id a) ids) eqn:Em.
   - destruct (t_owner a) as [o|] eqn:Eo.
-    + destruct (N.eqb o e) eqn:Ee; cbn [fst In].
-      * intros [<-|H]; [|apply Hrec, H]. right. exists a. apply N.eqb_eq in Ee. subst o.
-        split; [left; reflexivity|repeat split; auto].
+    + destruct (N.eqb o e || negb (t_idok a)) eqn:Ee; cbn [fst In].
+      * intros [<-|H]; [|apply Hrec, H]. right. exists a.
+        split; [left; reflexivity|]. split; [|split; auto].
+        apply orb_true_iff in Ee. destruct Ee as [Ee|Ee].
+        -- apply N.eqb_eq in Ee. subst o. left. exact Eo.
+        -- right. apply negb_true_iff, Ee.
       * intros [<-|H]; [left; left; reflexivity|apply Hrec, H].
     + cbn [fst In]. intros [<-|H]; [left; left; reflexivity|apply Hrec, H].
   - cbn [fst In]. intros [<-|H]; [left; left; reflexivity|apply Hrec, H].
@@ -115,9 +128,10 @@ Proof.
   destruct (release e ids r) as [r'' n] eqn:E; cbn [fst] in IH.
   destruct (mem_tid (t_id a) ids) eqn:Em.
   - destruct (t_owner a) as [o|] eqn:Eo.
-    + destruct (N.eqb o e) eqn:Ee; cbn [fst In].
+    + destruct (N.eqb o e || negb (t_idok a)) eqn:Ee; cbn [fst In].
       * intros [<-|H] Hm; [reflexivity|apply IH; assumption].
-      * intros [<-|H] Hm; [unfold owner_is; rewrite Eo; exact Ee|apply IH; assumption].
+      * intros [<-|H] Hm; [|apply IH; assumption]. apply orb_false_iff in Ee.
+        unfold owner_is; rewrite Eo. apply Ee.
     + cbn [fst In]. intros [<-|H] Hm; [unfold owner_is; rewrite Eo; reflexivity|apply IH; assumption].
   - cbn [fst In]. intros [<-|H] Hm; [congruence|apply IH; assumption].
 Qed.
@@ -178,16 +192,15 @@ Qed.
 (* every KILL is for a listed, unlocked, active task of the roster *)
 Lemma kill_kills ids r k :
   In k (snd (kill_tasks ids r)) ->
-  exists t, In t r /\ t_id t = k /\ is_locked t = false /\ t_active t = true /\ mem_tid k ids = true.
+  exists t, In t r /\ t_id t = k /\ is_locked t = false /\ mem_tid k ids = true.
 Proof.
   induction r as [|a r IH]; cbn [kill_tasks]; [cbn; tauto|].
   destruct (kill_tasks ids r) as [r'' ks] eqn:E; cbn [snd] in IH.
   assert (Hrec : In k ks -> exists t, In t (a :: r) /\ t_id t = k /\ is_locked t = false /\
-                                     t_active t = true /\ mem_tid k ids = true).
+                                     mem_tid k ids = true).
   { intro H. destruct (IH H) as [t [H1 H2]]. exists t. split; [right; exact H1|exact H2]. }
   destruct (mem_tid (t_id a) ids && negb (is_locked a)) eqn:C; cbn [snd]; [|exact Hrec].
   apply andb_true_iff in C. destruct C as [C1 C2].
-  destruct (t_active a) eqn:Ea; [|exact Hrec].
   intros [<-|H]; [|apply Hrec, H].
   exists a. split; [left; reflexivity|]. repeat split; auto.
   destruct (is_locked a); [discriminate|reflexivity].
@@ -195,15 +208,15 @@ Qed.
 
 (* and every such task gets its KILL *)
 Lemma kill_complete ids r t :
-  In t r -> mem_tid (t_id t) ids = true -> is_locked t = false -> t_active t = true ->
+  In t r -> mem_tid (t_id t) ids = true -> is_locked t = false ->
   In (t_id t) (snd (kill_tasks ids r)).
 Proof.
   induction r as [|a r IH]; cbn [kill_tasks In]; [tauto|].
-  intros [->|Hin] Hm Hl Ha; destruct (kill_tasks ids r) as [r'' ks] eqn:E; cbn [snd] in IH.
-  - rewrite Hm, Hl, Ha. cbn. left. reflexivity.
-  - specialize (IH Hin Hm Hl Ha).
+  intros [->|Hin] Hm Hl; destruct (kill_tasks ids r) as [r'' ks] eqn:E; cbn [snd] in IH.
+  - rewrite Hm, Hl. cbn. left. reflexivity.
+  - specialize (IH Hin Hm Hl).
     destruct (mem_tid (t_id a) ids && negb (is_locked a)); cbn [snd]; [|exact IH].
-    destruct (t_active a); [right|]; exact IH.
+    right; exact IH.
 Qed.
 
 Lemma kill_ids_nodup ids r : NoDup (map t_id r) -> NoDup (map t_id (fst (kill_tasks ids r))).
@@ -245,28 +258,27 @@ Qed.
 
 Lemma cleanup_kills r k :
   In k (snd (cleanup r)) ->
-  exists t, In t r /\ t_id t = k /\ is_locked t = false /\ t_active t = true.
+  exists t, In t r /\ t_id t = k /\ is_locked t = false.
 Proof.
   induction r as [|a r IH]; cbn [cleanup]; [cbn; tauto|].
   destruct (cleanup r) as [r'' ks] eqn:E; cbn [snd] in IH.
-  assert (Hrec : In k ks -> exists t, In t (a :: r) /\ t_id t = k /\ is_locked t = false /\ t_active t = true).
+  assert (Hrec : In k ks -> exists t, In t (a :: r) /\ t_id t = k /\ is_locked t = false).
   { intro H. destruct (IH H) as [t [H1 H2]]. exists t. split; [right; exact H1|exact H2]. }
   destruct (negb (is_locked a)) eqn:C; cbn [snd]; [|exact Hrec].
-  destruct (t_active a) eqn:Ea; [|exact Hrec].
   intros [<-|H]; [|apply Hrec, H].
   exists a. split; [left; reflexivity|]. repeat split; auto.
   destruct (is_locked a); [discriminate|reflexivity].
 Qed.
 
 Lemma cleanup_complete r t :
-  In t r -> is_locked t = false -> t_active t = true -> In (t_id t) (snd (cleanup r)).
+  In t r -> is_locked t = false -> In (t_id t) (snd (cleanup r)).
 Proof.
   induction r as [|a r IH]; cbn [cleanup In]; [tauto|].
-  intros [->|Hin] Hl Ha; destruct (cleanup r) as [r'' ks] eqn:E; cbn [snd] in IH.
-  - rewrite Hl, Ha. cbn. left. reflexivity.
-  - specialize (IH Hin Hl Ha).
+  intros [->|Hin] Hl; destruct (cleanup r) as [r'' ks] eqn:E; cbn [snd] in IH.
+  - rewrite Hl. cbn. left. reflexivity.
+  - specialize (IH Hin Hl).
     destruct (negb (is_locked a)); cbn [snd]; [|exact IH].
-    destruct (t_active a); [right|]; exact IH.
+    right; exact IH.
 Qed.
 
 Lemma cleanup_ids_nodup r : NoDup (map t_id r) -> NoDup (map t_id (fst (cleanup r))).
@@ -328,4 +340,18 @@ Proof.
   exists t. split; [exact Ht|]. destruct (tid_eqb (t_id t) id) eqn:E.
   - right. split; [apply tid_eqb_eq, E|symmetry; exact Et].
   - left. symmetry. exact Et.
+Qed.
+
+(* ---------------- fail_tasks ---------------- *)
+Lemma fail_ids ids r : map t_id (fail_tasks ids r) = map t_id r.
+Proof.
+  unfold fail_tasks. rewrite map_map. apply map_ext. intro t.
+  destruct (mem_tid (t_id t) ids); reflexivity.
+Qed.
+
+Lemma fail_spec ids r t' :
+  In t' (fail_tasks ids r) -> exists t, In t r /\ (t' = t \/ t' = set_failed t).
+Proof.
+  unfold fail_tasks. intro H. apply in_map_iff in H. destruct H as [t [Et Ht]].
+  exists t. split; [exact Ht|]. destruct (mem_tid (t_id t) ids); [right|left]; symmetry; exact Et.
 Qed.
